@@ -243,7 +243,7 @@ pub fn decode(target: &str, data: &[u8]) -> Vec<(&'static str, Value)> {
                     let mut cfg = std_cfg(NameMode::Capped, true);
                     cfg.empty_recs = false;
                     let facts = gen::realise(&raw_facts(&mut r, &cfg), &cfg);
-                    let mut noise = crate::build::JaxNoise { gene_header: r.u8() % 2, typedefs: r.u8() % 3, comments: r.u8() % 3, extra_cols: r.bool(), explicit_false: r.bool(), hpoa_head: r.u8() % 4, eof: r.u8() % 3, ..Default::default() };
+                    let mut noise = crate::build::JaxNoise { gene_header: r.u8() % 2, typedefs: r.u8() % 3, comments: r.u8() % 3, extra_cols: r.bool(), explicit_false: r.bool(), hpoa_head: r.u8() % 4, eof: r.u8() % 3, long_lines: r.u8() % 16 == 0, ..Default::default() };
                     noise.extra_tags = (0..r.below(5)).map(|_| r.u8()).collect();
                     let path = if r.bool() { PathSel::Jax } else { PathSel::JaxT };
                     vec![("C09", serde_json::to_value(OntCase { facts, path, noise }).unwrap())]
